@@ -38,7 +38,7 @@ Lemma rate_mul_kernel (TQ : QBase am) (PQ : QFull am) r q :
 Proof.
   unfold Rate_mul, tmpl_Mul_Qty_Rate, rate_mul_nf, Unit_as_qty, Rate_per_unit, Rate_per_unit_multiple,
     Rate_term_amount, Rate_term_unit.
-  rewrite !bind_assoc. split; reflexivity.
+  rewrite ?bind_assoc. split; reflexivity.
 Qed.
 
 (** value / rate: per multiple * ((value / 1 term-unit) / term amount), in the per unit *)
@@ -52,7 +52,7 @@ Lemma qty_div_rate_kernel (TQ : QFull am) (PQ : QBase am) q r :
 Proof.
   unfold tmpl_Div_Qty_Rate, qty_div_rate_nf, Unit_as_qty, Rate_per_unit, Rate_per_unit_multiple,
     Rate_term_amount, Rate_term_unit.
-  rewrite !bind_assoc. reflexivity.
+  rewrite ?bind_assoc. reflexivity.
 Qed.
 
 (** dividing by the reciprocal IS multiplying by the rate (the same term) *)
